@@ -1187,7 +1187,7 @@ def p7_aug(block):
 
 
 # ------------------------------------------------------------------------------------------ driver
-def canon_function(fn_node, level=2, protocol=False):
+def canon_function(fn_node, level=1, protocol=False):
     """Return a canonicalised deep copy of a FunctionDef / AsyncFunctionDef.
 
     protocol=True additionally applies the passes the small message-layer functions were written against
